@@ -73,7 +73,7 @@ PROPS = {
                 suites=[('join', 200, 3000), ('filter_tables', 100, 1500), ('missing_pairs', 80, 1000)],
                 oracles=[('setsim', 120, 2000)], oracle_props=['C11']),
     'C12': dict(title='calls leave inputs and tokenizer untouched; no call affects a later one',
-                suites=[('session', 120, 1500), ('join', 80, 1000)], oracles=[('history', 60, 800)], oracle_props=['C12']),
+                suites=[('session', 120, 1500), ('join', 80, 1000)], oracles=[('history', 60, 800), ('filter_objects', 60, 800)], oracle_props=['C12']),
     'C13': dict(title='joins obey transposition, threshold-refinement and operator-partition laws',
                 suites=[('spec', 200, 2000), ('gen', 100, 1000), ('join', 120, 2000)], oracles=[('laws', 60, 1000)], oracle_props=['C13'], datasets=True, arith=True),
     'C14': dict(title='filters prune what their technique promises to prune',
@@ -530,6 +530,8 @@ def dispatch_oracle(O, name, rng, n, stats, props, known_hits):
         return O.oracle_schedule(rng, n, stats)
     if name == 'history':
         return O.oracle_history(rng, n, stats)
+    if name == 'filter_objects':
+        return O.oracle_filter_objects(rng, n, stats)
     if name == 'laws':
         return O.oracle_laws(rng, n, stats)
     if name == 'validation':
